@@ -644,3 +644,155 @@ def T6_slots_installed(ctx):
     ctx.ob('T7', g, 'every-transition-recorded-with-its-address', n_app >= 1 and not bad7,
            '; '.join(sorted({f'{site(b, e)} {why}' for b, e, why in bad7})[:3]), site=g.loc(g.b['lo']),
            what='each touched account of the committed journal state is applied under its own address and every transition it yields reaches the transition state (bundle, reverts) under that address')
+
+
+# ------------------------------------------------------------------------------------------------
+# T8: what the lifecycle functions leave in the cache and hand back (survivors of the mutation sweep)
+
+
+def _final_account(p):
+    """what `self.account` holds when the path returns: 'None' (taken / assigned None), ('Some', term) or None if untouched"""
+    state = None
+    for e in p.events:
+        if e.kind == 'call' and norm_callee(e.d['callee']).endswith(('Option::take', 'mem::take')) and e.d['args'] and \
+                is_field(strip(e.d['args'][0]), 'CacheAccountInfo.account') or \
+                (e.kind == 'call' and norm_callee(e.d['callee']).endswith(('Option::take', 'mem::take')) and e.d['args'] and is_field(strip(e.d['args'][0]), 'CacheAccount.account')):
+            state = 'None'
+        if e.kind == 'assign' and e.d['place'][0] == 'field' and e.d['place'][2].endswith(('CacheAccountInfo.account', 'CacheAccount.account')) and strip(e.d['place'][1]) == ('arg', 1):
+            v = e.d['value']
+            state = 'None' if variant_of(v) == 'None' else ('Some', v)
+    return state
+
+
+def T8_lifecycle_results(ctx):
+    facts = ctx.facts
+    # (a) the cached account after each lifecycle step
+    want = {'selfdestruct': 'None', 'touch_empty_eip161': 'None', 'newly_created': 2, 'change': 2}
+    for meth, w in want.items():
+        f = ctx.method('parallel_state::CacheAccountInfo', meth)
+        bad = []
+        for p in feasible(f.paths()):
+            st = _final_account(p)
+            if w == 'None':
+                if st != 'None':
+                    bad.append(f'the cached account is {"left in place" if st is None else "set to a value"} (it must be gone)')
+            else:
+                if not (isinstance(st, tuple) and variant_of(st[1]) == 'Some' and mentions(st[1], ('arg', w))):
+                    bad.append('the cached account is not replaced by the new info')
+        ctx.ob('T8', f, 'cached-account-after-the-step', not bad, '; '.join(sorted(set(bad))), site=f.loc(f.b['lo']),
+               what='destroying or empty-touching an account removes it from the cache (reads then see it absent); creating or changing it stores the new info — the transition alone is not what later reads consult')
+    # the same on revm's side (sibling): if revm changes what it leaves behind, the copy must follow
+    for meth, w in want.items():
+        try:
+            g = ctx.fn('ext::revm_database::states::CacheAccount::' + meth)
+        except AnchorLost:
+            try:
+                g = ctx.fn('ext::revm_database::CacheAccount::' + meth)
+            except AnchorLost:
+                continue
+        sts = set()
+        for p in feasible(g.paths()):
+            st = _final_account(p)
+            sts.add('None' if st == 'None' else 'Some' if isinstance(st, tuple) else 'untouched')
+        ctx.ob('T8', g, 'revm-leaves-the-same', sts == ({'None'} if w == 'None' else {'Some'}), f'revm CacheAccount::{meth} leaves account {sorted(sts)}', site=g.loc(g.b['lo']))
+    # (b) account_info_change: the changed info is stored back
+    f = ctx.method('parallel_state::CacheAccountInfo', 'account_info_change')
+    bad = []
+    for p in feasible(f.paths()):
+        st = _final_account(p)
+        if not (isinstance(st, tuple) and variant_of(st[1]) == 'Some'):
+            bad.append('the changed account info is not stored back')
+    ctx.ob('T8', f, 'changed-info-stored-back', not bad, '; '.join(sorted(set(bad))), site=f.loc(f.b['lo']))
+    # increment / drain closures
+    for meth, check in (('increment_balance', 'inc'), ('drain_balance', 'drain')):
+        f = ctx.method('parallel_state::CacheAccountInfo', meth)
+        ok = False
+        detail = ''
+        for c in facts.closures_under(f.name):
+            cf = ctx.fn(c)
+            for p in feasible(cf.paths()):
+                w = assigns(p, 'AccountInfo.balance')
+                ret = [e for e in p.events if e.kind == 'ret'][0].d['value']
+                if check == 'inc':
+                    ok = bool(w) and w[-1].d['value'][0] == 'call' and w[-1].d['value'][1].endswith('::saturating_add') and mentions_field(w[-1].d['value'][2][0], 'AccountInfo.balance') \
+                        and any(s[0] == 'upvar' for s in subterms(w[-1].d['value'][2][1]))
+                    detail = show(w[-1].d['value'])[:80] if w else 'balance not written'
+                else:
+                    ok = bool(w) and 'ZERO' in show(w[-1].d['value']) and mentions_field(ret, 'AccountInfo.balance')
+                    detail = (show(w[-1].d['value'])[:40] if w else 'balance not written') + ' returns ' + show(ret)[:60]
+        ctx.ob('T8', f, 'balance-step', ok, detail, site=f.loc(f.b['lo']),
+               what='increment adds the amount to the balance (saturating, as revm); drain zeroes the balance and hands back what was there')
+    # (c) apply_account_state: what each arm returns and installs
+    f = ctx.fn('parallel_state::ParallelCacheState::apply_account_state')
+    bad = []
+    rows = set()
+    for p in feasible(f.paths()):
+        ret = [e for e in p.events if e.kind == 'ret'][0].d['value']
+        step = [e for e in p.events if e.kind == 'call' and 'CacheAccountInfo' in e.d['callee'] and e.d['callee'].split('::')[-1] in ('selfdestruct', 'newly_created', 'touch_empty_eip161', 'change')]
+        if not step:
+            if variant_of(ret) != 'None':
+                bad.append('an untouched account yields a transition')
+            continue
+        s = step[0]
+        k = s.d['callee'].split('::')[-1]
+        rows.add(k)
+        if not mentions(ret, s.d['result']):
+            bad.append(f'{k}: the transition returned is not the one the lifecycle step produced ({show(ret)[:50]})')
+        if k in ('newly_created', 'change'):
+            if variant_of(ret) != 'Some':
+                bad.append(f'{k}: the transition is dropped')
+            us = calls(p, 'ParallelCacheState::update_storage_slot')
+            emp = [a for a in p.events if bool_fact(a) and bool_fact(a)[0][0] == 'call' and bool_fact(a)[0][1].endswith('::is_empty') and mentions(bool_fact(a)[0], s.d['result'])]
+            nonempty = bool(emp) and emp[-1] is not None and bool_fact(emp[-1])[1] is False
+            if nonempty and not (us and us[0].d['args'][1] == ('arg', 2) and mentions(us[0].d['args'][2], s.d['result'])):
+                bad.append(f'{k}: the changed slots are not installed in the slot map of the address')
+            if not emp:
+                bad.append(f'{k}: the changed slots of the step are not examined')
+        if k == 'newly_created':
+            ci = [e for e in p.events if e.kind == 'call' and norm_callee(e.d['callee']).endswith(('::or_insert_with', '::or_insert', 'DashMap::insert')) and
+                  (mentions_field(e.d['args'][0], 'ParallelCacheState.contracts'))]
+            if not ci or not mentions_field(ci[0].d['args'][0], 'AccountInfo.code_hash') and not any(mentions_field(a, 'AccountInfo.code_hash') for a in ci[0].d['args']):
+                bad.append('created: the new code is not entered in the contracts cache under its hash')
+    ctx.ob('T8', f, 'arms-return-and-install-their-results', rows == {'selfdestruct', 'newly_created', 'touch_empty_eip161', 'change'} and not bad,
+           '; '.join(sorted(set(bad))[:3]) + f' rows={sorted(rows)}', site=f.loc(f.b['lo']),
+           what='each arm returns the transition of its own lifecycle step (the bundle is built from them), installs the changed slots of that step, and a created contract\'s code becomes readable by hash')
+    # (d) db_storage: a slot of an account whose storage is known (destroyed / created in the block / absent) reads as zero
+    g = ctx.method('parallel_state::ParallelStateView', 'db_storage')
+    okz = n_known = 0
+    badz = []
+    for p in feasible(g.paths()):
+        ret = [e for e in p.events if e.kind == 'ret'][0].d['value']
+        if not (ret[0] == 'agg' and ret[2] == 'Ok'):
+            continue
+        fetch = [e for e in p.events if e.kind == 'call' and callee_matches(e.d['callee'], '::storage_ref') and mentions_field(e.d['args'][0], 'ParallelStateView.database')]
+        hit = [a for a in p.events if option_fact(a) and option_fact(a)[1] == 'Some' and has_call(option_fact(a)[0], 'DashMap::get') and mentions_field(option_fact(a)[0], 'ParallelCacheState.storage')]
+        if fetch:
+            continue
+        ins = [e for e in p.events if e.kind == 'call' and callee_matches(e.d['callee'], ('Entry::or_insert', 'VacantEntry::insert')) and any(a[0] == 'const' for a in e.d['args'][1:])]
+        for e in ins:
+            n_known += 1
+            if not any(a[0] == 'const' and 'ZERO' in a[1] for a in e.d['args'][1:]):
+                badz.append(show(e.d['args'][1])[:40])
+    ctx.ob('T8', g, 'known-storage-reads-zero', n_known >= 1 and not badz, f'paths filling a slot without consulting the database={n_known}; non-zero fills: {badz[:2]}', site=g.loc(g.b['lo']),
+           what='when the account\'s storage is known to the cache (destroyed, created in this block, or no account) an uncached slot is zero — never a database value and never anything else')
+    # (e) the sequential path commits through the same machinery and keeps the transitions; drain_balances reports every balance
+    cm = [b for b in facts.production() if b['fn'].endswith('DatabaseCommit>::commit') and 'ParallelState<DB>' in b['fn'] and 'ParallelStateCommit' not in b['fn']]
+    okc = False
+    for b in cm:
+        cf = ctx.fn(b)
+        for p in feasible(cf.paths()):
+            ap = [e for e in p.events if e.kind == 'call' and norm_callee(e.d['callee']).endswith(('::apply_evm_state', '::apply_evm_state_inner'))]
+            at = [e for e in p.events if e.kind == 'call' and norm_callee(e.d['callee']).endswith(('::apply_transition', 'TransitionState::add_transitions'))]
+            if ap and at and mentions(at[0].d['args'][1], ap[0].d['result']) and ap[0].d['args'][1] == ('arg', 2):
+                okc = True
+    ctx.ob('T8', 'ParallelState::commit', 'sequential-commit-keeps-its-transitions', bool(cm) and okc, '', what='the sequential path commits through ParallelState itself; dropping the transitions there empties the bundle of every sequentially executed block')
+    d = ctx.method('parallel_state::ParallelState<DB>', 'drain_balances')
+    okd = False
+    for p in [q for q in d.paths() if q.end in ('return', 'cut')]:
+        dbs = calls(p, 'CacheAccountInfo::drain_balance')
+        pu = [e for e in p.events if e.kind == 'call' and norm_callee(e.d['callee']).endswith('Vec::push')]
+        if dbs:
+            r = dbs[0].d['result']
+            if sum(1 for e in pu if mentions(e.d['args'][1], r)) >= 2:
+                okd = True
+    ctx.ob('T8', d, 'drained-balances-and-transitions-collected', okd, '', site=d.loc(d.b['lo']))
